@@ -39,6 +39,7 @@ def Key.json : Key → String
 inductive Val where
   | none | bool (b : Bool) | int (i : Int) | flt (q : Rat) | nan | inf (neg : Bool)
   | str (s : String) | list (xs : List Val) | tup (xs : List Val) | dict (kvs : List (Key × Val))
+  | reward (name : String) (state : Val)   -- a coba reward object: registered name + `__getstate__()`
   deriving Repr, Inhabited
 
 abbrev PyDict := List (Key × Val)
@@ -86,6 +87,7 @@ def minimize (rnd : Rat → Rat) : Val → Val
   | .tup xs => .list (minimizeL rnd xs)
   | .dict kvs => .dict (minimizeD rnd kvs)
   | .none => .none | .bool b => .bool b | .int i => .int i | .nan => .nan | .inf n => .inf n | .str s => .str s
+  | .reward n st => .reward n st     -- not a float/list/tuple/dict: untouched, also its state
 def minimizeL (rnd : Rat → Rat) : List Val → List Val
   | [] => []
   | x :: xs => minimize rnd x :: minimizeL rnd xs
@@ -101,7 +103,7 @@ def fltLeaves : Val → List Rat
   | .list xs => fltLeavesL xs
   | .tup xs => fltLeavesL xs
   | .dict kvs => fltLeavesD kvs
-  | .none => [] | .bool _ => [] | .int _ => [] | .nan => [] | .inf _ => [] | .str _ => []
+  | .none => [] | .bool _ => [] | .int _ => [] | .nan => [] | .inf _ => [] | .str _ => [] | .reward _ _ => []
 def fltLeavesL : List Val → List Rat
   | [] => []
   | x :: xs => fltLeaves x ++ fltLeavesL xs
@@ -119,6 +121,7 @@ def jsonify : Val → Val
   | .dict kvs => .dict (jsonifyD kvs)
   | .none => .none | .bool b => .bool b | .int i => .int i | .flt q => .flt q | .nan => .nan | .inf n => .inf n
   | .str s => .str s
+  | .reward n st => .dict [(.str n, jsonify st)]   -- `coba.json` default hook: `{registered name: __getstate__()}`
 def jsonifyL : List Val → List Val
   | [] => []
   | x :: xs => jsonify x :: jsonifyL xs
@@ -153,7 +156,7 @@ inductive Rec where
   | version (n : Int)
   | experiment (d : Row)
   | comp (t : Tbl) (id : Int) (params : Row)
-  | inter (ids : List Int) (packed : List (String × List Val))
+  | inter (ids : List Int) (packed : List (String × List Val)) (n : Nat)   -- `n` = the `_n` entry (0: absent)
   deriving Repr, Inhabited
 
 /-! ### `TransactionEncode`: column packing -/
@@ -232,7 +235,10 @@ def encodeTx (rnd : Rat → Rat) (fixed : Bool) : Tx → Rec
   | .t1 id p => .comp .E id (wireDict rnd p)
   | .t2 id p => .comp .L id (wireDict rnd p)
   | .t3 id p => .comp .V id (wireDict rnd p)
-  | .t4 ids rows => .inter ids (wireCols rnd (if fixed then pack rows else packAsIs rows))
+  | .t4 ids rows =>
+    let cols := wireCols rnd (if fixed then pack rows else packAsIs rows)
+    -- `fixes/C07-rows-without-fields.diff`: rows without any field leave no column, their number is recorded as `_n`
+    .inter ids cols (if cols.isEmpty then rows.length else 0)
 
 /-- `TransactionEncode(restored).filter`: the version line is written by fresh runs only -/
 def encode (rnd : Rat → Rat) (fixed : Bool) (restored : Bool) (txs : List Tx) : List Rec :=
@@ -316,8 +322,8 @@ def firstLen : List (String × List Val) → Nat
   | c :: _ => c.2.length
 
 /-- the table rows of one `["I", ids, {"_packed": cols}]` record -/
-def triRows (fixed : Bool) (e l v : Int) (cols : List (String × List Val)) : Except Err (List Row) :=
-  if cols.isEmpty then .ok [] else
+def triRows (fixed : Bool) (e l v : Int) (cols : List (String × List Val)) (n : Nat) : Except Err (List Row) :=
+  if cols.isEmpty then .ok (number e l v 1 (List.replicate n [])) else
   match tupleCols fixed cols with
   | .error err => .error err
   | .ok cols' =>
@@ -350,7 +356,7 @@ def compsOf (t : Tbl) : List Rec → List (Int × Row)
   | .comp t' id p :: rs => if t' = t then (id, p) :: compsOf t rs else compsOf t rs
   | .version _ :: rs => compsOf t rs
   | .experiment _ :: rs => compsOf t rs
-  | .inter _ _ :: rs => compsOf t rs
+  | .inter _ _ _ :: rs => compsOf t rs
 
 /-- `rows[id].update(list2tuple(params))` -/
 def mergeComp (acc : List (Int × Row)) (ip : Int × Row) : List (Int × Row) :=
@@ -373,33 +379,86 @@ def compTable (t : Tbl) (recs : List Rec) : List Row :=
 
 abbrev Cols := List (String × List Val)
 
-def intersOf : List Rec → List (List Int × Cols)
+/-- the `{"_packed": cols, "_n": n}` part of an interaction record -/
+abbrev Packed := Cols × Nat
+
+def intersOf : List Rec → List (List Int × Packed)
   | [] => []
-  | .inter ids cols :: rs => (ids, cols) :: intersOf rs
+  | .inter ids cols n :: rs => (ids, (cols, n)) :: intersOf rs
   | .version _ :: rs => intersOf rs
   | .experiment _ :: rs => intersOf rs
   | .comp _ _ _ :: rs => intersOf rs
 
 /-- `int_rows[tuple(ids)] = packed` (pairs are completed with evaluator 0) -/
-def mergeInter (acc : List (List Int × Cols)) (ic : List Int × Cols) : List (List Int × Cols) :=
+def mergeInter (acc : List (List Int × Packed)) (ic : List Int × Packed) : List (List Int × Packed) :=
   upsert (if ic.1.length = 2 then ic.1 ++ [0] else ic.1) ic.2 acc
 
-def ltTri (a b : List Int × Cols) : Bool := ltIds a.1 b.1
+def ltTri (a b : List Int × Packed) : Bool := ltIds a.1 b.1
 
 /-- the interaction records, last one per id triple, `sorted(int_rows.items())` -/
-def interRecs (recs : List Rec) : List (List Int × Cols) :=
+def interRecs (recs : List Rec) : List (List Int × Packed) :=
   sortBy ltTri ((intersOf recs).foldl mergeInter [])
 
-def interTable (fixed : Bool) : List (List Int × Cols) → Except Err (List Row)
+def interTable (fixed : Bool) : List (List Int × Packed) → Except Err (List Row)
   | [] => .ok []
-  | (ids, cols) :: rest =>
+  | (ids, cols, n) :: rest =>
     match ids with
     | [e, l, v] =>
-      match triRows fixed e l v cols, interTable fixed rest with
+      match triRows fixed e l v cols n, interTable fixed rest with
       | .ok rows, .ok more => .ok (rows ++ more)
       | .error err, _ => .error err
       | _, .error err => .error err
     | _ => .error .valueError
+
+/-- the groups of rows `TransactionResult` hands to `Table.insert` one after the other: one group per
+interaction record with a non-empty `_packed` (same computation as `interTable`, not flattened) -/
+def interGroups (fixed : Bool) : List (List Int × Packed) → Except Err (List (List Row))
+  | [] => .ok []
+  | (ids, cols, n) :: rest =>
+    match ids with
+    | [e, l, v] =>
+      match triRows fixed e l v cols n, interGroups fixed rest with
+      | .ok rows, .ok more => .ok (if rows.isEmpty then more else rows :: more)
+      | .error err, _ => .error err
+      | _, .error err => .error err
+    | _ => .error .valueError
+
+/-! ### `Table`: column order and padding with `Missing` (what `Table.columns` / `to_dicts()` show) -/
+
+/-- a table as `Table` exposes it: the column names in order and every row as its cells in that order; `none` is
+`Missing` (the column does not exist for that row), `some .none` is a stored `None` -/
+structure PTable where
+  columns : List String
+  rows : List (List (Option Val))
+  deriving Repr, Inhabited
+
+def rowKeys (r : Row) : List String := r.map (·.1)
+
+/-- `Table.insert`: the columns a group of rows adds — its keys that are not columns yet, sorted -/
+def addCols (cols : List String) (g : List Row) : List String :=
+  cols ++ sortDedup ((g.flatMap rowKeys).filter (fun k => !cols.contains k))
+
+/-- columns after inserting the groups one after the other into a table created with `init` columns -/
+def tableCols (init : List String) (groups : List (List Row)) : List String := groups.foldl addCols init
+
+/-- old rows are padded with `Missing` for new columns, new rows for columns they lack -/
+def padTable (init : List String) (groups : List (List Row)) : PTable :=
+  let cols := tableCols init groups
+  { columns := cols, rows := groups.flatten.map (fun r => cols.map (fun c => r.lookup c)) }
+
+/-- the four tables of `TransactionResult` as `Table` exposes them (`rwd_col` is always empty for version-4 logs:
+it looks for a key `reward` beside `_packed`) -/
+def tablesOf (fixed : Bool) : List Rec → Except Err (List PTable)
+  | .version n :: recs =>
+    if n ≠ 4 then .error .stopIteration else
+    match interGroups fixed (interRecs recs) with
+    | .error e => .error e
+    | .ok groups =>
+      let one (t : Tbl) : PTable :=
+        let rows := compTable t recs
+        padTable [idColName t] (if rows.isEmpty then [] else [rows])
+      .ok [one .E, one .L, one .V, padTable idCols groups]
+  | _ => .error .stopIteration
 
 def lastExperiment (recs : List Rec) : Row :=
   recs.foldl (fun acc r => match r with | .experiment d => d | _ => acc) []
@@ -426,6 +485,17 @@ def readLog (fixed : Bool) : List Rec → Except Err Result
         evaluators := compTable .V recs
         interactions := rows }
   | _ :: _ => .error .cobaException   -- a first line that is not the version line is never written by coba
+
+/-- the `{"_packed": …, "_n": …}` part the encoder writes for the rows of an evaluation -/
+def packedOf (rnd : Rat → Rat) (f : Bool) (rows : List PyDict) : Packed :=
+  (wireCols rnd (if f then pack rows else packAsIs rows),
+   if (wireCols rnd (if f then pack rows else packAsIs rows)).isEmpty then rows.length else 0)
+
+/-- a log written before `fixes/C07-rows-without-fields.diff`: no record carries `_n` -/
+def stripN : List Rec → List Rec
+  | [] => []
+  | .inter ids cols _ :: rs => .inter ids cols 0 :: stripN rs
+  | r :: rs => r :: stripN rs
 
 /-! ### the routes of `Experiment.run` -/
 
@@ -457,6 +527,7 @@ def normIn (rnd : Rat → Rat) : Val → Val
   | .tup xs => .list (normInL rnd xs)
   | .dict kvs => .dict (normInD rnd kvs)
   | .none => .none | .bool b => .bool b | .int i => .int i | .nan => .nan | .inf n => .inf n | .str s => .str s
+  | .reward n st => .dict [(.str n, jsonify st)]   -- registered json form; the state is carried by json as it is (not rounded)
 def normInL (rnd : Rat → Rat) : List Val → List Val
   | [] => []
   | x :: xs => normIn rnd x :: normInL rnd xs
@@ -508,9 +579,8 @@ def specRowsOf (rnd : Rat → Rat) (ir : List Int × List PyDict) : List Row :=
   | [e, l, v] => specRows rnd e l v ir.2
   | _ => []
 
-/-- a well-formed evaluation record: three ids, and either some row has a field or there is no row -/
-def WellFormed (ir : List Int × List PyDict) : Prop :=
-  ir.1.length = 3 ∧ (strKeys ir.2 ≠ [] ∨ ir.2 = [])
+/-- a well-formed evaluation record: three ids (phase 2: rows without any field are fine, their number is recorded) -/
+def WellFormed (ir : List Int × List PyDict) : Prop := ir.1.length = 3
 
 def ltTriP (a b : List Int × List PyDict) : Bool := ltIds a.1 b.1
 def ltIdP (a b : Int × PyDict) : Bool := decide (a.1 < b.1)
